@@ -65,8 +65,16 @@ def step (w : World) (toks : List String) : World × String :=
       | some n => ({ w with nodes := w.nodes.set i { n with blacklist := n.blacklist ++ [⟨ip, port⟩] } }, "ok")
       | none => bad
     | _, _, _ => bad
+  | ["remap", i, b, ip, port] =>
+    match i.toNat?, b.toNat?, ip.toNat?, port.toNat? with
+    | some i, some b, some ip, some port => (w.remap i b ⟨ip, port⟩, "ok")
+    | _, _, _, _ => bad
+  | ["remove", i, k] =>
+    match i.toNat?, k.toNat? with
+    | some i, some k => (w.removePeerAt i k, "ok")
+    | _, _ => bad
   | ["maxpeers", i, m] =>
-    match i.toNat?, m.toNat? with
+    match i.toNat?, m.toInt? with
     | some i, some m =>
       match w.nodes[i]? with
       | some n => ({ w with nodes := w.nodes.set i { n with maxPeers := m } }, "ok")
